@@ -82,7 +82,7 @@ bool matches (const long double* truth, const long double* got, int n, long doub
 
 struct Tal
 {
-    long long n = 0, tr = 0, lin = 0, quad2 = 0, quad1 = 0, quad0 = 0, cub3 = 0, cub1_qpos = 0, cub1_qneg = 0, cub1_q0 = 0, triple = 0,
+    long long n = 0, tr = 0, lin = 0, quad2 = 0, quad1 = 0, quad0 = 0, quadgraded = 0, cub3 = 0, cub1_qpos = 0, cub1_qneg = 0, cub1_q0 = 0, triple = 0,
               deleg = 0, illcond = 0, inexact = 0;
 };
 
@@ -174,6 +174,41 @@ template <class T> void roots_stage (const std::string& tn)
             ++t.quad1;
             run_quadratic (L, -(r + r), r * r, 1, truth, 0, true, "double-root");
         }
+    // ---------- quadratics with roots of very different magnitude (2^-k and m*2^k): both roots are perfectly conditioned
+    // (well separated), so EACH must be accurate to its own conditioning — a formula that obtains the small root by
+    // subtracting two nearly equal numbers (-b +- sqrt(D) with the wrong sign) loses it although the count and the large
+    // root stay right.  Per-root bound, from a relative perturbation eps of every coefficient:
+    //     |dx_i| <= 64 * eps * (|x_i|^2 + |B| |x_i| + |C|) / |2 x_i + B|      (monic form x^2 + B x + C)
+    {
+        const int K = std::numeric_limits<T>::digits > 30 ? 25 : 10;
+        for (int k = 1; k <= K; ++k)
+            for (int m = 1; m <= 3; m += 2)
+                for (int s1 = -1; s1 <= 1; s1 += 2)
+                    for (int s2 = -1; s2 <= 1; s2 += 2)
+                        for (const Rat& L : LEADS)
+                        {
+                            Rat r1 (s1, (ex::i128) 1 << k), r2 ((long long) s2 * m * ((long long) 1 << k));
+                            Rat B = -(r1 + r2), C = r1 * r2;
+                            T a, b, c;
+                            if (!coef (L, a) || !coef (L * B, b) || !coef (L * C, c)) continue;
+                            ++t.n; ++t.tr; ++t.quadgraded;
+                            T   x[2] = {99, 99};
+                            int cnt  = IM::solveQuadratic (a, b, c, x);
+                            std::string in = Msg () << tn << " graded-roots a=" << a << " b=" << b << " c=" << c;
+                            if (cnt != 2) { R ().fail ("solveQuadratic.count.graded-roots", in, "2", fmt (cnt)); continue; }
+                            long double tr[2] = {r1.ld (), r2.ld ()}, g[2] = {(long double) x[0], (long double) x[1]};
+                            if (absl (g[0]) > absl (g[1])) std::swap (g[0], g[1]); // |r1| < |r2| by construction: pair by magnitude
+                            for (int i = 0; i < 2; ++i)
+                            {
+                                long double xi = tr[i], Bl = B.ld (), Cl = C.ld ();
+                                long double tol = 64 * EPS * (xi * xi + absl (Bl) * absl (xi) + absl (Cl)) / absl (2 * xi + Bl);
+                                long double e = absl (g[i] - xi);
+                                if (!(e <= tol))
+                                    R ().fail (std::string ("solveQuadratic.accuracy.graded-roots.") + (i ? "large-root" : "small-root"), in, Msg () << xi << " +- " << tol, Msg () << g[i]);
+                                else R ().note_max ("solveQuadratic<" + tn + "> graded roots error / per-root bound", (double) (e / tol));
+                            }
+                        }
+    }
     const Rat ALPHA[7] = {Rat (-2), Rat (-1), Rat (-1, 2), Rat (0), Rat (1, 2), Rat (1), Rat (2)};
     const Rat BETA[4]  = {Rat (1, 2), Rat (1), Rat (2), Rat (4)};
     for (const Rat& al : ALPHA)
@@ -271,6 +306,7 @@ template <class T> void roots_stage (const std::string& tn)
     R ().cls ("roots." + tn + ".linear", t.lin);
     R ().cls ("roots." + tn + ".quadratic.two-roots", t.quad2); R ().cls ("roots." + tn + ".quadratic.double-root", t.quad1);
     R ().cls ("roots." + tn + ".quadratic.no-real-root", t.quad0);
+    R ().cls ("roots." + tn + ".quadratic.roots-2^-k-and-m*2^k", t.quadgraded);
     R ().cls ("roots." + tn + ".cubic.three-real-roots", t.cub3);
     R ().cls ("roots." + tn + ".cubic.one-real-root.q>0", t.cub1_qpos); R ().cls ("roots." + tn + ".cubic.one-real-root.q<0", t.cub1_qneg);
     R ().cls ("roots." + tn + ".cubic.one-real-root.q=0", t.cub1_q0);
